@@ -125,7 +125,7 @@ def gen_case(g, tier, idx):
     ncalls = r.choice([1, 1, 2, 3])
     seq = ["kfcv", str(n), str(m), str(ncalls)]
     singles = []
-    varied = 0
+    varied = handed = 0
     for c in range(ncalls):
         if c > 0 and r.random() < 0.6:
             H2, R2 = gen_HR(g, style, n, m)        # same shape, new content
@@ -138,9 +138,12 @@ def gen_case(g, tier, idx):
         k, toks = gen_call(g, style, n, m, H)
         nlik = r.choice([1, 1, 2, 3])
         head = vlib.fmt_mat_cm(H) + vlib.fmt_mat_cm(R)
-        seq += head + toks[:m] + [str(nlik), str(k)] + toks[m:]
+        hand = r.choice([0, 0, 0, 1])              # object move-constructed into a new one before the call
+        handed += hand
+        hist = ([str(r.choice([0, 1])) for _ in range(r.randint(0, 3))] + ["0"]) if r.random() < 0.4 else []
+        seq += [str(hand), str(len(hist))] + hist + head + toks[:m] + [str(nlik), str(k)] + toks[m:]
         singles.append(" ".join(["kfc", str(n), str(m), str(k)] + head + toks))
-    return " ".join(seq), singles, {"style": style, "n": n, "m": m, "calls": ncalls, "model_changes": varied}
+    return " ".join(seq), singles, {"style": style, "n": n, "m": m, "calls": ncalls, "model_changes": varied, "hand_overs": handed}
 
 
 def split_seq_output(hout, ncalls):
@@ -314,6 +317,8 @@ def replay_case(path):
     if t[0] == "kfcv":
         ncalls = int(t[3]); p = 4
         for _ in range(ncalls):
+            p += 1                                   # hand-over flag
+            ns = int(t[p]); p += 1 + ns              # skip history
             head = t[p:p + m * n + m * m]; p += m * n + m * m
             y = t[p:p + m]; p += m
             p += 1                                   # nlik
@@ -374,7 +379,11 @@ def run(ctx):
         for sl, ho in zip(slines, outs):
             distinct.add(sl)
             ncalls_total += 1
-            for kind, key2, what in check_case(ctx, sl, meta, ho, dout[pos], iout[pos], stats, lout[pos]):
+            try:
+                res = check_case(ctx, sl, meta, ho, dout[pos], iout[pos], stats, lout[pos])
+            except Exception as ex:       # malformed / short / non-numeric output of a (mutated) implementation
+                res = [("prop", "unreadable-result", "output of the implementation cannot be evaluated (%s: %s): %s" % (type(ex).__name__, ex, ho[:120]))]
+            for kind, key2, what in res:
                 (corr_bad if kind == "corr" else prop_bad).append((key2, what, hline, h))
             pos += 1
     for key2, what, line, h in prop_bad[:20]:
